@@ -93,6 +93,8 @@ def cases(seed, tier):
             d["recompute"] = []
         if rng.random() < 0.25:
             d["edits"] = gen.rand_edits(rng, d["network"], max(s_["departure"] for s_ in d["sessions"]))
+        if rng.random() < 0.2:
+            d["scheduler"]["mr"] = rng.choice([2, 3, 5])  # recomputed only every k periods (and at events)
         c = {"desc": d}
         if rng.random() < 0.12:
             c["warm"] = gen.scenario(rng, sched=dict(d["scheduler"]), kinds=("EVSE", "FR"), nmax=5, sess_max=6, constraint_free_p=0.1)
@@ -192,11 +194,50 @@ def run_case(case, obs):
             if any(e["after"] < t for e in d["edits"]):
                 obs.ev("invocations_after_an_edit")
         w_ = dict(wit, period=t, schedule=out, pre_state=pre, estimator_bounds=bounds)
-        # 1. shape
-        if set(out) != set(ids) or any(len(v) != 1 for v in out.values()):
+        # 1. shape: one row per station, rows of one common length >= 1 (the algorithms plan one period; a longer plan is judged
+        #    column by column and, per session, against the remaining demand as a whole)
+        lens = {len(v) for v in out.values()}
+        if set(out) != set(ids) or len(lens) != 1 or 0 in lens:
             obs.violate("schedule_shape", f"period {t}: keys {sorted(out)} lengths {[len(v) for v in out.values()]} (stations {ids})", **w_)
             continue
-        s = [float(out[i][0]) for i in ids]
+        rows_full = {i: [float(x) for x in out[i]] for i in ids}
+        Lr = lens.pop()
+        if Lr > 1:
+            obs.ev("multi_period_schedules_judged")
+            bad = False
+            for j in range(1, Lr):
+                col = [rows_full[i][j] for i in ids]
+                if not all(math.isfinite(x) for x in col):
+                    obs.violate("schedule_not_finite", f"period {t} column {j}: {col}", **w_)
+                    bad = True
+                    break
+                if L:
+                    worst, where = oracles.margins(A, L, angles, [[x] for x in col], 1e-5, 1e-7)
+                    if worst > oracles.guard(L):
+                        obs.violate("schedule_infeasible", f"period {t} column {j}: constraint {names[where[0]]} exceeded", **w_)
+                        bad = True
+                        break
+                for i, sid_ in enumerate(ids):
+                    ok, dist = oracles.evse_accepts(st[sid_]["evse"], F(col[i]))
+                    if dist >= F(1, 10 ** 9) and not ok:
+                        obs.violate("pilot_not_accepted_by_evse", f"period {t} column {j}: station {sid_} pilot {col[i]!r}", **w_)
+                        bad = True
+                    rem_ = pre.get(sid_, (None, 0.0))[1]
+                    if col[i] != 0 and not rem_ > 1e-3 + 1e-9:
+                        obs.violate("pilot_on_vacant_station" if sid_ not in pre else "pilot_for_satisfied_session",
+                                    f"period {t} column {j}: station {sid_} pilot {col[i]!r}", **w_)
+                        bad = True
+                    elif col[i] != 0:
+                        amp_ = rem_ * 1000.0 / st[sid_]["voltage"] * 60.0 / period
+                        if sum(rows_full[sid_]) > max(amp_, rows_full[sid_][0]) + 1e-9 * max(1.0, amp_):
+                            obs.violate("schedule_exceeds_remaining_demand", f"period {t}: station {sid_} is allotted {sum(rows_full[sid_])!r} "
+                                        f"amp-periods over {Lr} periods, remaining demand {amp_!r}", **w_)
+                            bad = True
+                if bad:
+                    break
+            if bad:
+                continue
+        s = [rows_full[i][0] for i in ids]
         if not all(math.isfinite(x) for x in s):
             obs.violate("schedule_not_finite", f"period {t}: {s}", **w_)
             continue
